@@ -477,3 +477,34 @@ SPECS["C18"] = {
     "level_note": "the reference spells group names like the library documents: strings as is, numbers as their text (reals %.15g), true/false/null",
     "assumptions": ["group key values are non-empty (an empty group name is an undocumented edge of loop-key printing)"],
 }
+
+
+# ---------------------------------------------------------------------------------------------- C03
+def plan_c03(tier, seed):
+    if tier == "quick":
+        return checks("main", 5, 25000) + checks("escape_off", 2, 15000) + shards("main", "short7", 4)
+    return checks("main", 10, 300000) + checks("escape_off", 3, 200000) + checks("nohook_avx2", 1, 200000) + shards("main", "short7", 2)
+
+
+SPECS["C03"] = {
+    "builds": {
+        "main": Build("main", "harness/c03_escape.cpp"),
+        "escape_off": Build("escape_off", "harness/c03_escape.cpp", defs=["QENTEM_AUTO_ESCAPE_HTML=0"]),
+        "nohook_avx2": Build("nohook_avx2", "harness/c03_escape.cpp", hook=False, simd="avx2"),
+    },
+    "default_build": "main",
+    "plan": plan_c03,
+    "exhaustive_enums": ["short7"],
+    "rule": ("case = (string, unit width char/char16_t/char32_t/wchar_t, printing position); strings from a weighted alphabet of & < > \" ' ; the entity letters, "
+             "the five entities intact or with one unit deleted / replaced / duplicated / truncated, controls, non-ASCII units; positions: direct "
+             "EscapeHTMLSpecialChars, {var:k}, {raw:k}, object-loop key printed through {var:v}, {svar:} phrase text with {var:}/{raw:} sub-tags, echoed source of an "
+             "unresolved {var:...}/{raw:...} whose name contains specials; plus every string of length <= 7 over {& a m p ; l t} (960,800 strings, exhaustive); "
+             "a second build with QENTEM_AUTO_ESCAPE_HTML=0; non-trivial = the string contains one of the five specials; distinct by case"),
+    "engine": "rapidcheck + complete enumeration",
+    "technique": "property-based testing (rapidcheck) with metamorphic oracles (safety predicate, decode-equivalence, idempotence, raw identity) plus complete enumeration of short entity look-alike strings",
+    "level_text": ("For every generated string and printing position the emitted segment (cut out exactly, the surrounding text is known by construction) must contain none "
+                   "of < > \" ', contain & only as the start of one of the five entities, decode to the same text as the input decodes to, and be a fixed point of the "
+                   "escaper; {raw:} must be verbatim; with auto-escape compiled off {var:} must be verbatim. Exhaustive over the stated short-string universe, sampling beyond."),
+    "level_note": "the reference decoder is a single left-to-right pass over the five entities, written in the harness",
+    "assumptions": ["loop keys and names used in template positions contain no braces or NULs (they could not be written in a template)"],
+}
